@@ -804,6 +804,14 @@ def run_instances_case(si, route):
     return expected_ok and _refs_resolve(out["objects"])
 
 
+def corrupt_named(ver, name, path, junk_json):
+    """run_corrupt_case addressed by names (stable witness form for known findings)"""
+    junk = json.loads(junk_json)
+    ci = [i for i, c in enumerate(h_C17.CASES) if c[0] == ver and c[2] == name and c[3] == path][0]
+    ji = [j for j, v in enumerate(h_C17.JUNK) if type(v) is type(junk) and v == junk][0]
+    return run_corrupt_case(ci, ji)
+
+
 # ---------------------------------------------------------------- c'. presence-only co-constraints, table driven (symbolic presence flags)
 def _x509_21_list():
     return ['is_self_signed', 'hashes', 'version', 'serial_number', 'signature_algorithm', 'issuer']
